@@ -395,6 +395,10 @@ func init() {
 				i := r.Intn(len(s.Convs))
 				if s.Convs[i].InForm != FormBuilt && !s.Convs[i].Once {
 					s.Convs[i].Deliver = DelGen
+					if j := r.Intn(len(s.Convs)); j != i && len(s.Convs) >= 3 && s.Convs[j].InForm != FormBuilt && !s.Convs[j].Once {
+						// two generated links (their generators may travel in one option)
+						s.Convs[j].Deliver = DelGen
+					}
 					fixDelivery(&s, r)
 					res.obs("cases_with_a_generated_link", 1)
 				}
